@@ -36,7 +36,10 @@ impl RustDocument {
     }
 
     pub fn extend(&mut self, other: RustDocument) {
-        self.namespace_lookup.extend(other.namespace_lookup);
+        // the prefix bindings of this document take precedence over the ones of the merged (imported) document
+        let mut namespace_lookup = other.namespace_lookup;
+        std::mem::swap(&mut self.namespace_lookup, &mut namespace_lookup);
+        self.namespace_lookup.extend(namespace_lookup);
 
         extend_no_duplicates(&mut self.namespaces, other.namespaces);
         extend_no_duplicates(&mut self.target_namespaces, other.target_namespaces);
